@@ -20,6 +20,6 @@ Extraction "../ocaml/gen/szm.ml"
   recon_array ity_of
   frun1 drun1
   hist_exes
-  ts_run_f ts_run_d resolve
+  ts_run_f ts_run_d ts_out_f ts_out_d resolve
   run_threads
   ledger_trace.
